@@ -223,7 +223,7 @@ def run_repro(case):
     res = Res()
     cfg = dict(case["cfg"])
     digs = {}
-    for r in (0, 1, 12345):
+    for r in (0, 1, 12345, 2 ** 31, 2 ** 32 - 1):
         c = dict(cfg, random_state=r)
         out = []
         exc = None
